@@ -53,6 +53,10 @@ class RTCMMessage:
         self._payload = payload
         if self._payload is None:
             raise RTCMMessageError("Payload must be specified")
+        if len(payload) < 2 or (
+            len(payload) < 3 and (payload[0] << 4 | payload[1] >> 4) == 4076
+        ):
+            raise RTCMMessageError("Payload too short to contain a message identity")
         self._payloadi = int.from_bytes(self._payload, "big")  # payload as int
         self._payblen = len(self._payload) * 8  # length of payload in bits
         self._labelmsm = labelmsm
